@@ -79,6 +79,7 @@ package authentication
 // One link of the signature chain: the chunk signature is verified over the string-to-sign of this chunk (previous
 // signature, timestamp, scope, hash of the chunk's bytes); only then does the chain advance to this signature.
 //@ func (*awsChunkReadCloser).validateSignature
+//@ property C28 C30
 //@ mode effects
 //@ assigns r.previousSignature
 //@ ensures[C30:link-verified] err == nil ==> called(r.verifier.verify) && result_of(r.verifier.verify, 0)
@@ -95,10 +96,12 @@ package authentication
 // the trailer checksum (trailer modes). A failed chunk signature returns no bytes; payload bytes are fed to the chunk
 // hash (signed chunks) and to the trailer checksum (trailer modes).
 //@ func (*awsChunkReadCloser).Read
+//@ property C28 C30
 //@ mode effects
 //@ ensures[C30:eof-only-when-finished] err == io.EOF ==> r.finished
 
 //@ func (*awsChunkReadCloser).readChunked
+//@ property C28 C30
 //@ mode effects
 //@ assigns r.finished r.chunkBytesRemaining r.chunkSignature r.previousSignature
 //@ ensures[C30:finished-only-at-the-terminating-chunk] r.finished && !old(r.finished) ==> err == io.EOF && r.chunkBytesRemaining == 0
